@@ -63,7 +63,7 @@ func (c *nilValReturnChecker) VisitStmt(stmt ast.Stmt) {
 	}
 	xIsNil := expr.Op == token.EQL &&
 		typep.SideEffectFree(c.ctx.TypesInfo, expr.X) &&
-		qualifiedName(expr.Y) == "nil"
+		c.isNil(expr.Y)
 	if !xIsNil {
 		return
 	}
@@ -78,6 +78,16 @@ func (c *nilValReturnChecker) VisitStmt(stmt ast.Stmt) {
 			break
 		}
 	}
+}
+
+// isNil reports whether x is the predeclared nil (and not a user-defined nil).
+func (c *nilValReturnChecker) isNil(x ast.Expr) bool {
+	id, ok := x.(*ast.Ident)
+	if !ok || id.Name != "nil" {
+		return false
+	}
+	_, ok = c.ctx.TypesInfo.ObjectOf(id).(*types.Nil)
+	return ok
 }
 
 // becomesNonNilInterface reports whether i-th result of ret is a value
